@@ -142,7 +142,7 @@ pub enum Act {
     Inc(u8),
     Drain(u8),
 }
-pub const N_TX: u8 = 17;
+pub const N_TX: u8 = 18;
 fn words(ws: &[u64]) -> Bytes {
     let mut v = vec![];
     for w in ws {
@@ -169,6 +169,7 @@ pub fn tx_desc(i: u8) -> &'static str {
         "1 wei to EMPTY, paying the coinbase",
         "K[2]=0",
         "1 wei to T",
+        "T[2]=9",
     ][i as usize]
 }
 fn tx_case(cfg: Cfg, i: u8) -> TxCase {
@@ -196,6 +197,7 @@ fn tx_case(cfg: Cfg, i: u8) -> TxCase {
         }
         15 => (K, words(&[2, 0]), 0),
         16 => (t, Bytes::new(), 1),
+        17 => (t, words(&[9]), 0),
         _ => unreachable!(),
     };
     c.tx.to = Some(to);
@@ -933,7 +935,7 @@ pub fn run_family(ctx: &Ctx, prop: &'static str, depth: usize, rule: &str, expla
         acc.bump(&format!("histories_total_depth_{d}"), CFGS.len() as u64 * (alphabet().len() as u64).pow(d as u32));
     }
     let meta = Meta {
-        rule: format!("every history of <= {depth} actions over a 22-action menu (17 transactions: value to an absent account, touches of an existing-empty and an absent account, storage writes that change / restore / zero / add a slot, CREATE2 (CREATE before Constantinople) of a contract with and without storage, its self-destruct and a later write to it, destroy-and-recreate and create-and-destroy inside one transaction, value to a codeless account with storage, a fee-paying transfer, value to the created contract's address; 3 balance increments; 2 balance drains) on 4 configurations (TANGERINE without state clear, SHANGHAI, CANCUN, SHANGHAI with the contract T already deployed with storage), plus, from 4 non-initial starting histories (T destroyed-and-recreated by two routes, T with two slots, a contract with a new and a zeroed slot), every continuation of <= depth-2 actions, executed through Evm::transact over the real State; {rule}; distinct = distinct (configuration, history)"),
+        rule: format!("every history of <= {depth} actions over a 23-action menu (18 transactions: value to an absent account, touches of an existing-empty and an absent account, storage writes that change / restore / zero / add a slot, CREATE2 (CREATE before Constantinople) of a contract with and without storage, its self-destruct and a later write to it, destroy-and-recreate and create-and-destroy inside one transaction, value to a codeless account with storage, a fee-paying transfer, value to the created contract's address; 3 balance increments; 2 balance drains) on 4 configurations (TANGERINE without state clear, SHANGHAI, CANCUN, SHANGHAI with the contract T already deployed with storage), plus, from 4 non-initial starting histories (T destroyed-and-recreated by two routes, T with two slots, a contract with a new and a zeroed slot), every continuation of <= depth-2 actions, executed through Evm::transact over the real State; {rule}; distinct = distinct (configuration, history)"),
         assumptions: vec![
             "reference = plain map committed by an independent rule (touched only; self-destructed => deleted; created => storage cleared; EIP-161 removal when state clear is active); balance increments / drains applied literally".into(),
             "changesets and reverts are applied to a plain database model with separate account / storage / contract tables, following their documented reading (wipe flag first; unlisted slots of a wiped revert read as pre-bundle values)".into(),
